@@ -1,4 +1,5 @@
 import Chess.Lemmas.PushPop
+import Chess.Lemmas.Generated
 
 /-!
 # C03 — taking a move back restores the game exactly; queries change nothing
@@ -40,6 +41,22 @@ theorem nested_restores (g : Game) (w : Word) (h : Ok g w) : run g w = g := by
     rw [ih1 (g.push m) hi, Game.pop_push g m hf hc]
     exact ih2 g hr
 
+/-- **C03.1'** Every move either generator mode can produce in a well-formed game — checked or
+unchecked list, captures of a king included — is restored exactly by take-back. -/
+theorem takeback_restores_generated (g : Game) (hw : g.WF) (b : Bool) (m : Move)
+    (hm : m ∈ (g.getMoves b).1) : (g.push m).pop m = g :=
+  Game.pop_push g m (Game.getMoves_fits hw b hm).1 hw.cache
+
+/-- **C03.3** Asking for the move list (either mode) never alters the game: the game returned
+by the query — after all its internal play/test/take-back steps — is the game it was given. -/
+theorem query_changes_nothing (g : Game) (hw : g.WF) (b : Bool) : (g.getMoves b).2 = g :=
+  Game.getMoves_pure hw b
+
+/-- the checked list is a sub-list of the unchecked one (same order, some moves filtered out) -/
+theorem checked_sublist_unchecked (g : Game) (hw : g.WF) :
+    (g.getMoves true).1.Sublist (g.getMoves false).1 :=
+  Game.checked_sublist_unchecked hw
+
 /-! ### Non-vacuity: a concrete game in which the hypotheses hold -/
 
 /-- an empty board with consistent caches -/
@@ -74,3 +91,6 @@ end Chess.Props.C03
 
 #print axioms Chess.Props.C03.takeback_restores
 #print axioms Chess.Props.C03.nested_restores
+#print axioms Chess.Props.C03.takeback_restores_generated
+#print axioms Chess.Props.C03.query_changes_nothing
+#print axioms Chess.Props.C03.checked_sublist_unchecked
